@@ -81,6 +81,7 @@ type Ctx struct {
 	roles      map[string]*ssa.Function
 	allowRetry bool
 	readerSide map[*ssa.Function]bool
+	canon      *canonTable
 }
 
 func (c *Ctx) pos(p token.Pos) string {
